@@ -72,12 +72,20 @@ def split_top(s, sep=','):
     return out
 
 
+ALLOCS = {}
+
+
 def parse(path):
     fns = {}
     cur = None
     curbb = None
     for ln in open(path).read().split('\n'):
         if cur is None:
+            if ln.startswith('alloc'):
+                ma = re.match(r'^alloc(\d+) \(static: ([^,]+),', ln)
+                if ma:
+                    ALLOCS[ma.group(1)] = ma.group(2).strip()
+                continue
             m = re.match(r'^(fn|const|static) (.*)$', ln)
             if not m:
                 continue
